@@ -37,6 +37,17 @@ MUTANTS = {
                      "        if len(runnable_xns_ids) == 0:\n            logger.debug(\"No runnable Nodes available\")\n            runnable_xns_ids = set()\n            continue\n", []),
     "main_thread_to_pool": (H, "        if xn.resource == Resource.thread:", "        if xn.resource in (Resource.thread, Resource.main_thread):", ["C04"]),
     "forget_successor": (G, "            if self.in_degree[new_root_node] == 1\n        }", "            if self.in_degree[new_root_node] == 1 and len(self) % 5 != 0\n        }", ["C09"]),
+    "drop_subgraph_tables": (G, "        graph.debug.update(self.debug)\n", "", ["C13"]),
+    "drop_subgraph_cp": (G, "        graph.compound_priority.update(self.compound_priority)\n", "", ["C06", "C07"]),
+    "exclude_only_self": (G, "graph.remove_nodes_from(graph.multiple_nodes_successors(exclude_nodes))", "graph.remove_nodes_from(exclude_nodes)", ["C12"]),
+    "roots_not_checked": (G, "if not set(root_nodes).issubset(set(graph.root_nodes)):", "if False:", ["C12"]),
+    "debug_parent_any": (G, "if set(self.predecessors(successor_id)).issubset(set(leaves_ids)):", "if True:", ["C13"]),
+    "tag_precedence": (D, "            if nodes:\n                return [node.id for node in nodes]\n", "            if nodes and alias not in self.exec_nodes:\n                return [node.id for node in nodes]\n", ["C12"]),
+    "flag_keypath_ignored": (H, "return bool(xn.active.result(results))", "return bool(results[xn.active.id])", ["C10", "C01"]),
+    "subdag_default_shadows": (D, "                    if to_subdag_id(id_) not in registered_input_ids\n", "", ["C20", "C01"]),
+    "kwargs_key_mangle": (N, 'key.split(".")[-1]: uxn.result(results)', 'key: uxn.result(results)', ["C20", "C01"]),
+    "return_list_as_tuple": (H, "        if isinstance(return_uxns, list):\n            return list(gen)", "        if isinstance(return_uxns, list):\n            return tuple(gen)", ["C01"]),
+    "args_setdefault": (H, "            results.force_set(node_id, arg)", "            results.setdefault(node_id, arg)", ["C01"]),
     "skip_pruning_none": (H, "            results[xn.id] = None\n", "", ["C10", "C01"]),
 }
 
